@@ -215,6 +215,15 @@ def _fn(name, args):
         return min(a, args[1])
     if name == "max_value":
         return max(a, args[1])
+    if name in ("bessel_j", "bessel_y"):
+        import mpmath
+
+        n, x = args[0], args[1]
+        if _cplx(x) or not isinstance(n, (int, np.integer)):
+            raise ValueError("Bessel function outside the integer-order/real-argument domain")
+        if name == "bessel_y" and x <= 0:
+            raise ValueError("Y_n of a non-positive argument")
+        return float((mpmath.besselj if name == "bessel_j" else mpmath.bessely)(int(n), mpmath.mpf(float(x))))
     if name == "real":
         return a.real if c else a
     if name == "imag":
@@ -480,3 +489,13 @@ def tree_edges(t, acc=None, parent=None, pos=None):
         for i, a in enumerate(t[1]):
             tree_edges(a, acc, "MI", min(i, 1))
     return acc
+
+
+def walk(t):
+    """Every node (list whose head is a string) of an expression/statement tree, depth first."""
+    if isinstance(t, (list, tuple)):
+        if t and isinstance(t[0], str):
+            yield t
+        for a in t:
+            if isinstance(a, (list, tuple)):
+                yield from walk(a)
